@@ -43,7 +43,7 @@ package vm
 //verif:obligation fn=VerifC06Step args=149,151,3,0,1;149,151,2,1,1 loops=300 secs=3000 idx=ite timeout=120000 tier=thorough
 //verif:obligation fn=VerifC06Predicate args=2,2 idx=ite secs=900 validate=10
 //verif:obligation fn=VerifC06Predicate args=3,3 idx=ite secs=3000 tier=thorough
-//verif:obligation fn=VerifC06Verify args=0,8,3;1,8,3;2,8,3;3,8,3;4,8,3;5,8,3;6,8,3;7,8,3;8,8,3;9,8,3;10,8,3;11,8,3;12,8,3;13,8,3 secs=900 validate=10
+//verif:obligation fn=VerifC06Verify args=0,8,3;1,8,3;2,8,3;3,8,3;4,8,3;5,8,3;6,8,3;7,8,3;8,8,3;9,8,3;10,8,3;11,8,3;12,8,3;13,8,3;14,8,3;15,8,3 secs=900 validate=10
 //verif:obligation fn=VerifC06Wide args=112,127,1,0,32,1;128,143,1,0,32,1;144,148,1,0,32,1;149,151,1,0,32,1;152,159,1,0,32,1;160,175,1,0,32,1;192,207,1,0,32,1;112,127,2,1,32,1;128,143,2,1,32,1;144,148,2,1,32,1;149,151,2,1,32,1;152,159,2,1,32,1;160,175,2,1,32,1;192,207,2,1,32,1;112,127,2,0,32,1;128,143,2,0,32,1;144,148,2,0,32,1;152,159,2,0,32,1;160,175,2,0,32,1;192,207,2,0,32,1;160,175,3,0,32,1 idx=ite secs=900 timeout=60000 validate=10
 //verif:obligation fn=VerifC06Wide args=112,127,3,0,32,1;128,143,3,0,32,1;144,148,3,0,32,1;152,159,3,0,32,1;192,207,3,0,32,1;112,127,3,1,32,1;128,143,3,1,32,1;144,148,3,1,32,1;152,159,3,1,32,1;160,175,3,1,32,1;192,207,3,1,32,1;112,127,3,2,32,1;128,143,3,2,32,1;144,148,3,2,32,1;149,151,3,2,32,1;152,159,3,2,32,1;160,175,3,2,32,1;192,207,3,2,32,1;193,193,5,0,32,1;193,193,5,1,32,1 idx=ite secs=3000 timeout=60000 tier=thorough
 //verif:obligation fn=VerifC06Wide args=112,127,1,0,31,1;128,143,1,0,31,1;144,148,1,0,31,1;149,151,1,0,31,1;152,159,1,0,31,1;160,175,1,0,31,1;192,207,1,0,31,1;112,127,2,1,31,1;128,143,2,1,31,1;144,148,2,1,31,1;149,151,2,1,31,1;152,159,2,1,31,1;160,175,2,1,31,1;192,207,2,1,31,1;112,127,2,0,31,1;128,143,2,0,31,1;144,148,2,0,31,1;152,159,2,0,31,1;160,175,2,0,31,1;192,207,2,0,31,1;160,175,3,0,31,1 idx=ite secs=3000 timeout=60000 tier=thorough
@@ -339,6 +339,9 @@ var verifC06VerifyMenu = [][]byte{
 	{byte(OP_DUP), byte(OP_INVERT), byte(OP_XOR), byte(OP_TOALTSTACK), byte(OP_SIZE), byte(OP_DROP)},
 	{byte(OP_OVER), byte(OP_AND), byte(OP_TUCK), byte(OP_2DROP)},
 	{byte(OP_1ADD), byte(OP_SWAP), byte(OP_ROT)},
+	// state-updating programs: replace / extend the alt stack (the caller's StateData list must not change)
+	{byte(OP_FROMALTSTACK), byte(OP_DROP), byte(OP_DATA_1), 0xee, byte(OP_TOALTSTACK), byte(OP_1)},
+	{byte(OP_DATA_1), 0xee, byte(OP_TOALTSTACK), byte(OP_1)},
 }
 
 func verifC06MenuHasCat(p []byte) bool {
@@ -381,7 +384,10 @@ func VerifC06Verify(menu int, rawLen int, maxArg int) {
 	}
 	prog := progBuf[:len(verifC06VerifyMenu[menu])]
 	stateBuf := verifBytesN("state", 3)
-	state := [][]byte{stateBuf[0:1]}
+	// the caller's state-data list: two items in a list with one spare slot
+	stateList := make([][]byte, 2, 3)
+	stateList[0], stateList[1] = stateBuf[0:1], stateBuf[1:2]
+	state := stateList
 
 	rawSnap, progSnap, stateSnap := verifC06Copy(raw), verifC06Copy(progBuf), verifC06Copy(stateBuf)
 	one := uint64(1)
@@ -398,6 +404,8 @@ func VerifC06Verify(menu int, rawLen int, maxArg int) {
 	verifAssert(bytes.Equal(raw, rawSnap), "verify-argument-buffer-unchanged")
 	verifAssert(bytes.Equal(progBuf, progSnap), "verify-program-buffer-unchanged")
 	verifAssert(bytes.Equal(stateBuf, stateSnap), "verify-state-buffer-unchanged")
+	full := stateList[:3]
+	verifAssert(len(full[0]) == 1 && len(full[1]) == 1 && full[2] == nil && bytes.Equal(full[0], stateSnap[0:1]) && bytes.Equal(full[1], stateSnap[1:2]), "verify-state-list-unchanged")
 	verifAssert(gasA == gasB && errors.Root(errA) == errors.Root(errB), "verify-same-result-as-independent-copies")
 	if errA == nil {
 		verifReach("VerifC06Verify:accepted")
